@@ -1348,6 +1348,10 @@ class AnyPayloadDecoder(AbstractSimplePayloadDecoder):
 
             chunk += component
 
+        if not isTagged:
+            # untagged ANY holds the complete TLV, trailing end-of-octets included
+            chunk += ints2octs((0, 0))
+
         if substrateFun:
             # we are a fragment of an outer serialization being assembled
             yield chunk
